@@ -7,6 +7,11 @@ fn main() {
     let args: Vec<String> = std::env::args().skip(1).collect();
     let id = args.first().cloned().unwrap_or_default();
     vcore::quiet_panics();
+    if id == "GEN" {
+        // development aid: acceptance rate of the project generator
+        c04::gen_probe(args.get(1).and_then(|x| x.parse().ok()).unwrap_or(50));
+        return;
+    }
     let ctx = vcore::Ctx::new(&id, &args[1.min(args.len())..]);
     match id.as_str() {
         "C04" => c04::run(&ctx),
